@@ -468,7 +468,9 @@ def run_e2e(res, rng, model, schemas, configs, found_box, label="e2e", allow_rej
     td = tmpdir()
     try:
         for si, (s, stats) in enumerate(schemas):
-            xml = namegen.schema_to_xml(s)
+            # every other schema refers to its named types with a different letter case (SBE lookup is
+            # case-insensitive; generated includes must still use the defining spelling)
+            xml = namegen.schema_to_xml(s, case_variant_seed=(1000 + si) if si % 2 == 1 else None)
             inc, rc, out = gen_headers(s.package, xml)
             res.count((label, "sbeppc", xml))
             if rc != 0 and allow_reject:
